@@ -261,7 +261,11 @@ func main() {
 	f := gallina.ParseFlags()
 	meta := gallina.NewMeta("C08", f.Seed, f.Tier)
 	meta.Rule = "corpus (upstream test tables, #18379 class mixing, negative-time splitByRange, tombstone boundaries, disabled-overlap group) + exhaustive enumeration of aligned block sets (intervals over a slot grid, all subsets up to a size bound) + seeded random block sets (<=12 blocks; aligned/misaligned/negative/overlapping ranges, failed flags, tombstone ratio boundaries, all hint combinations, int64-extreme and malformed inputs); every case = one real plan call + one real CompactBlockMetas call + the real plan/CompactBlockMetas loop to the empty plan; non-trivial = at least 2 blocks; distinct by (config, blocks)"
-	cf := &gallina.CaseFile{Dir: f.Out, Type: "case", PerShard: 1500,
+	perShard := 300
+	if f.Tier == "thorough" {
+		perShard = 1000
+	}
+	cf := &gallina.CaseFile{Dir: f.Out, Type: "case", PerShard: perShard,
 		Preamble: "From Coq Require Import List ZArith.\nFrom Verif Require Import lib.Int64 model.Plan corr.CorrC08.\nImport ListNotations.\nOpen Scope Z_scope.\n",
 		Footer:   gallina.StdFooter}
 	id := 0
@@ -468,7 +472,7 @@ func main() {
 	emit(def, seq([2]int64{0, 20}, [2]int64{19, 40}, [2]int64{40, 60}), nil, "overlap pair", 0)
 	emit(def, seq([2]int64{0, 360}, [2]int64{340, 560}, [2]int64{360, 420}, [2]int64{420, 540}, [2]int64{600, 620}), nil, "overlap chain", 0)
 	emit(def, seq([2]int64{0, 10}, [2]int64{9, 20}, [2]int64{30, 40}, [2]int64{39, 50}), nil, "two overlap groups, first wins", 0)
-	emit(config{Ranges: def.Ranges, Overlap: false}, seq([2]int64{0, 10}, [2]int64{5, 15}, [2]int64{20, 30}, [2]int64{100, 110}), nil, "disabled overlap: range group contains overlapping blocks", 0)
+	emit(config{Ranges: def.Ranges, Overlap: false}, seq([2]int64{0, 10}, [2]int64{5, 15}, [2]int64{20, 30}, [2]int64{60, 70}, [2]int64{100, 110}), nil, "disabled overlap: range group contains overlapping blocks", 0)
 	emit(def, seq([2]int64{-60, -40}, [2]int64{-40, -20}, [2]int64{-20, 0}, [2]int64{0, 20}), nil, "negative aligned", 0)
 	emit(def, seq([2]int64{-61, -41}, [2]int64{-41, -21}, [2]int64{-21, -1}, [2]int64{0, 20}), nil, "negative misaligned", 0)
 	emit(def, seq([2]int64{-1, 0}, [2]int64{0, 1}, [2]int64{1, 2}, [2]int64{30, 31}), nil, "straddling zero", 0)
@@ -544,7 +548,7 @@ func main() {
 	}
 
 	// ---- seeded random
-	n := f.Count(1100, 30000)
+	n := f.Count(800, 30000)
 	for i := 0; i < n; i++ {
 		r := gen.Fork(f.Seed, i)
 		var c config
